@@ -95,12 +95,12 @@ Proof. vm_compute. reflexivity. Qed.
     request ID, the issuer, the destination only when a consumer URL is known -- and no assertion content: the builder
     never sets the Assertion field (no subject, attribute or signature) *)
 Theorem C01_failed_response_content : forall reqid acs issuer audience reason message id1 rest issue until,
-  exists d, built_value "makeFailedResponse" (Some (response_rec reqid acs issuer audience)) [DStr reason; DStr message; DStr (b "f")] (id1 :: rest) issue until = Some (d, rest) /\
+  built_sat "makeFailedResponse" (Some (response_rec reqid acs issuer audience)) [DStr reason; DStr message; DStr (b "f")] (id1 :: rest) issue until (fun d r => r = rest /\
     at_ d ["Id"%string] = Some (DStr id1) /\ at_ d ["InResponseTo"%string] = Some (DStr reqid) /\ at_ d ["IssueInstant"%string] = Some (DStr issue) /\
     at_ d ["Status"; "StatusCode"; "Value"]%string = Some (DStr reason) /\ at_ d ["Status"; "StatusMessage"]%string = Some (DStr message) /\
     at_ d ["Issuer"; "Text"]%string = Some (DStr issuer) /\
     at_ d ["Destination"%string] = (if is_empty acs then None else Some (DStr acs)) /\
-    at_ d ["Assertion"%string] = None.
+    at_ d ["Assertion"%string] = None).
 Proof. exact failed_response_fields. Qed.
 
 Print Assumptions C01_success_only_if_done.
